@@ -15,19 +15,24 @@ class Tree(FunctionContract):
     crosscheck = False
 
     def shapes(self, level):
-        return list(range(0, (4 if level == "quick" else 5) + 1))
+        return [(n, r) for n in range(0, (4 if level == "quick" else 5) + 1) for r in (False, True) if not (r and n > 3)]
 
-    def shape_text(self, n):
-        return f"n={n} items (zeros and repeats included: values are arbitrary non-negative reals), window [lo, hi] arbitrary"
+    def shape_text(self, s):
+        return f"n={s[0]} items (zeros and repeats included: values are arbitrary non-negative reals), window [lo, hi] arbitrary" + \
+               ("; the lower bound is re-assigned after construction, as SNP / RNP do" if s[1] else "")
 
-    def make_args(self, it, n):
+    def make_args(self, it, shape):
+        n, reassign = shape
         self._n = n
         xs = [ItemV(z3.Const(f"x{i}", L.Item)) for i in range(n)]
         for x in xs:
             it.assume(L.val(x.t) >= 0)
         lo, hi = z3.Real("lower_bound"), z3.Real("upper_bound")
         cls = it.get_function("prtpy/inclusion_exclusion_tree.py::InExclusionBinTree")
-        tree = it.instantiate(cls, [], {"items": PList(list(xs)), "valueof": VALUEOF, "upper_bound": SV(hi), "lower_bound": SV(lo)})
+        lo0 = z3.Real("lower_bound_at_construction") if reassign else lo
+        tree = it.instantiate(cls, [], {"items": PList(list(xs)), "valueof": VALUEOF, "upper_bound": SV(hi), "lower_bound": SV(lo0)})
+        if reassign:
+            it.setattr(tree, "lower_bound", SV(lo))          # the window that counts is the one in force when the tree is generated
         self._lo, self._hi, self._tree = lo, hi, tree
         return {"__self__": tree}
 
